@@ -460,3 +460,42 @@ def _g_rb_rotate(tier, rnd):
         for m, k, rec in _exp_recipes("RotatingBloomFilter", tier, rnd, {"max_queue_size": q}):
             for force in (False, True):
                 yield {"self": rec, "args": {"force": force}}
+
+
+# ---- cuckoo filters -------------------------------------------------------------------------------------------------
+CK = "probables.cuckoo.cuckoo.CuckooFilter"
+
+
+def _ck_hash(rnd):
+    """hash over a tiny key universe k0..k7 plus the decimal strings of fingerprints (the alternate-bucket hash)"""
+    table = [[f"k{i}", rnd.randrange(1, 9)] for i in range(8)]
+    return {"__func__": {"kind": "simple_table", "table": table, "default": 3,
+                         "digits": {str(d): rnd.randrange(0, 7) for d in range(0, 300)}}}
+
+
+def cuckoo_states(tier, rnd, cls=CK):
+    for cap in (1, 2, 3):
+        for bs in (1, 2):
+            for swaps in (1, 2, 3):
+                for auto in (False, True):
+                    for nkeys in (0, 1, 2, 3, 4):
+                        hf = _ck_hash(rnd)
+                        ops = [["add", f"k{rnd.randrange(8)}"] for _ in range(nkeys)]
+                        yield {"__recipe__": cls, "args": {"capacity": cap, "bucket_size": bs, "max_swaps": swaps,
+                                                          "auto_expand": auto, "finger_size": 1, "hash_function": hf},
+                               "ops_tolerant": ops}
+
+
+@gen("CuckooFilter.add", "CuckooFilter.check", "CuckooFilter.remove")
+def _g_ck_keys(tier, rnd):
+    for rec in cuckoo_states(tier, rnd):
+        for key in ("k0", "k1", "k5"):
+            for script in ([0, 0, 0, 0, 0, 0], [1, 0, 1, 0, 1, 1], [rnd.randrange(4) for _ in range(8)]):
+                yield {"self": rec, "args": {"key": key}, "rand": script}
+
+
+@gen("CuckooFilter.expand")
+def _g_ck_expand(tier, rnd):
+    for rec in cuckoo_states(tier, rnd):
+        for script in ([0] * 12, [rnd.randrange(4) for _ in range(12)]):
+            yield {"self": rec, "args": {}, "rand": script}
